@@ -19,6 +19,10 @@ CHECKS = {
    technique="runtime monitoring: (a) fault injection catalogue over every preprocessing check, (b) online trace checker commit-before-reveal over the event log under adversarial schedulers, (c) predictor monitor comparing challenges recomputed from public openings with probes of the challenges used",
    text="(a) every preprocessing verification step is attacked on the wire (single/all recipients, persistent) or consistently through taps; honest receivers must return Err and must not send any online-phase message afterwards. (b) for every party and round the first reveal send must follow the receipt of every commitment, checked on honest runs under starving/random/PCT schedules with capacities 1,2,unbounded. (c) a passive predictor recomputes KOS chi_0, the aBit test seed and the bucket permutation from the coin-toss openings; exact match = predictable (recorded known findings), equal chi_0 in two sessions = reuse.",
    note="Cheating with inherent detection failure above 2^-64 is not in the must-abort catalogue. (c) only knows the probed challenges. Known findings: the three challenges are derived from the initial toss and chi is reused (not a small patch)."),
+ "C05": dict(level="exploration", ref="DESIGN.md §3 C05",
+   technique="runtime monitoring: offline checker over the recorded transcript of honest runs (stage rule on event order, decoded content of share/opening messages, return values)",
+   text="Honest runs for n=2..4, every evaluator, every non-empty output subset, circuits whose outputs alias reused and input registers. The event log must show no message addressed to a non-output party after the sender's input stage; decoded 'wire shares' may carry an output register only to the owner of that input; 'output wire shares'/'lambda' carry values only at output registers and only to output parties; non-output parties return an empty vector.",
+   note="Stages are recognised by the engine's own phase labels. Leakage through the content of earlier-stage messages is C06/C07's subject."),
  "C07": dict(level="fault_enumeration", ref="DESIGN.md §3 C07",
    technique="runtime monitoring: offline checker over the recorded transcript (hash-set window scan for the probed global key and XOR sets of size 2 and 3), on honest runs and on every execution of the C03/C04 fault catalogues",
    text="For every honest party T and execution the pooled transcript is scanned for delta_T (probe): the key at every byte offset in both byte orders, two windows XORing to it (every offset, mixed byte orders, linear time), and in honest 2-party runs three decoded 128-bit fields XORing to it. Honest runs cover n=2..4 with NOT gates and all roles; adversarial runs are the C03 and C04 catalogues incl. the cheater-continues variants.",
@@ -27,6 +31,18 @@ CHECKS = {
    technique="runtime monitoring with fault injection: adversarial channel rewrites/drops messages or crashes the peer; outcome, exact deadlock detection and counting allocator observed per execution (sharded sub-processes)",
    text="For every message a corrupted party sends in the fault configurations (n=2 complete, n=3 sampled in quick / complete in thorough) the message is replaced by every byte-level class and every structure-aware mutation class of its decoded tree, or the peer vanishes after it (both send-to-dead semantics). Each honest party must end in Ok or Err: a caught panic, an exact 'no runnable task' state, a single allocation request above the bound or a process abort is a violation.",
    note="Holds for the executions produced (evidence lists cases per label and the outcome histogram). Assumes peers that terminate close their endpoints; silent-but-connected peers are outside the property. Coins of the engine are not reproducible, replay re-runs the case."),
+ "C09": dict(level="exploration", ref="DESIGN.md §3 C09",
+   technique="runtime monitoring: recording channel, per (party, peer) sequence of (direction, byte length) compared across executions with different inputs and coins",
+   text="For each sampled public configuration (circuit, n, evaluator, output set, temp-file mask) R executions with inputs all-0, all-1 and random and fresh coins are run under one fixed schedule; the per-(party,peer) sequences of (direction, length) must be identical, the first differing operation is the witness.",
+   note="Timing is not observed; configurations are sampled. The fixed round-robin schedule makes per-party operation order a function of the code path only."),
+ "C12": dict(level="exploration", ref="DESIGN.md §3 C12",
+   technique="runtime monitoring under schedule exploration: deterministic executor with seeded adversarial schedulers (random, PCT, starvation, lazy/eager delivery), bounded channels, exact deadlock detection, outstanding-operation guards",
+   text="Honest executions under seeded schedulers x capacities 1, 2, unbounded x n=2..4 x every evaluator; every party must end Ok with the clear-text value, the run must never be stuck (no runnable task, no deliverable message) and no (party, peer) may have two sends or two receives outstanding. Evidence counts distinct schedule and interleaving hashes.",
+   note="Schedules are sampled, not enumerated; channels that reorder within a pair are outside the property."),
+ "C18": dict(level="exploration", ref="DESIGN.md §3 C18",
+   technique="runtime monitoring: counting channel (operations attempted before return) and panic capture on an enumerated list of invalid arguments",
+   text="Every documented-invalid value of each mpc argument and circuit descriptions whose counters disagree with their instructions, used by one party or all parties, n in {2,3}: the call must return Err with 0 channel operations and never panic; a repeated output index must be rejected like that or behave as the de-duplicated set; inconsistent counters must only never panic.",
+   note="The list of invalid values is enumerated by hand from the property text; 'rejected up front' is demanded only where the property states it."),
  "C01": dict(level="exploration", ref="DESIGN.md §3 C01",
    technique="runtime monitoring: real mpc futures in a deterministic simulator, return values compared with an independent clear-text evaluator",
    text="Every party's return value of the real polytune::mpc is compared with an independent clear-text evaluator over generated valid register circuits, for n=2..5, every evaluator, output sets, temp-file masks, channel capacities and AND counts on both sides of the batch boundaries. Held on the executions produced; not a proof.",
